@@ -11,6 +11,7 @@ package language
 //
 //@ func LookupScript C20 C07
 //@   mode int
+//@   pure
 //@   requires [data-scriptRangesSorted] forall(k, 0, len(ScriptRanges), ScriptRanges[k].Start <= ScriptRanges[k].End && forall(l, k+1, len(ScriptRanges), ScriptRanges[k].End < ScriptRanges[l].Start))
 //@   ensures [agrees-with-scan] forall(k, 0, len(ScriptRanges), implies(ScriptRanges[k].Start <= r && r <= ScriptRanges[k].End, result == ScriptRanges[k].Script))
 //@   ensures [unknown-iff-absent] implies(forall(k, 0, len(ScriptRanges), !(ScriptRanges[k].Start <= r && r <= ScriptRanges[k].End)), result == Unknown)
